@@ -3,6 +3,7 @@ package main
 // SMT term layer: terms are strings with a sort; helpers build SMT-LIB 2 text.
 
 import (
+	"encoding/json"
 	"bytes"
 	"context"
 	"fmt"
@@ -413,6 +414,18 @@ var outDir = "/verif/out"
 // crossCheck (thorough tier): all back ends start at once and answers arriving within 8 s of the first are compared
 var crossCheck bool
 
+// solverHints: obligation name -> the back end that answered it in an earlier run (/verif/solver_hints.json, written
+// by `govc check -write-hints`, read on every run; a missing or stale entry only costs time).
+var solverHints = loadHints()
+
+func loadHints() map[string]string {
+	m := map[string]string{}
+	if b, err := os.ReadFile("/verif/solver_hints.json"); err == nil {
+		json.Unmarshal(b, &m)
+	}
+	return m
+}
+
 var repoRoot, outRoot = envOr("GOVC_REPO", "/repo"), envOr("GOVC_OUT", "/verif/out")
 
 func envOr(k, d string) string {
@@ -450,6 +463,19 @@ func Solve(name string, script string, timeoutS int, wantModel bool) SolveResult
 	ch := make(chan SolveResult, len(solvers))
 	var wg sync.WaitGroup
 	order := solvers
+	if h := solverHints[name]; h != "" && !crossCheck {
+		// start with the back end that decided this obligation last time (performance only: every answer is still
+		// an answer of one of the three back ends, and the others follow after the usual delay)
+		var first, rest []solverSpec
+		for _, sp := range solvers {
+			if sp.name == h {
+				first = append(first, sp)
+			} else {
+				rest = append(rest, sp)
+			}
+		}
+		order = append(first, rest...)
+	}
 	for si, sp := range order {
 		sp := sp
 		si := si
